@@ -95,7 +95,7 @@ def _value(v):
         v = [[0, []]]
     return ' # '.join(_lit(S(p[1])) if p[0] == 0 else S(p[1]) for p in v)
 
-def render(file):
+def render(file, keyless=False):
     out = []
     for c in file:
         t = c[0]
@@ -105,7 +105,10 @@ def render(file):
             out.append('@preamble{%s}' % _value(c[1]))
         elif t == 2:
             body = ''.join(',\n  %s = %s' % (S(f[0]), _value(f[1])) for f in c[3])
-            out.append('@%s{%s%s\n}' % (S(c[1]), S(c[2]), body))
+            if keyless:       # keyless_entries=True: no key is read, the body starts with the first field
+                out.append('@%s{%s\n}' % (S(c[1]), body[1:]))
+            else:
+                out.append('@%s{%s%s\n}' % (S(c[1]), S(c[2]), body))
         elif t == 3:
             out.append('@comment{ignored, text = 1}')
         else:
@@ -127,7 +130,7 @@ def fix_arg(fn, arg):
     for o in arg[1]:
         t = o[1]
         if t == 1: o = [o[0], 1, o[2], [fc(c) for c in o[3]]] + list(o[4:5])
-        elif t == 2: o = [o[0], 2, o[2], [[fc(c) for c in f] for f in o[3]]] + list(o[4:5])
+        elif t == 2: o = [o[0], 2, o[2], [[fc(c) for c in f] for f in o[3]]] + list(o[4:7])
         elif t == 3: o = [o[0], 3, o[2], [fc(c) for c in o[3]]]
         ops.append(o)
     return [arg[0], ops]
@@ -179,15 +182,30 @@ def _items(items):
         elif cmd == 'preamble':
             out.append([1, list(it[1][0])])
         else:
-            out.append([2, it[0], it[1][0], [[n, list(v)] for n, v in it[1][1]]])
+            out.append([2, it[0], [] if it[1][0] is None else [it[1][0]], [[n, list(v)] for n, v in it[1][1]]])
     return out
 
 def _macros_kw(m):
     return {} if not m else {'macros': [(S(k), S(v)) for k, v in m[0]]}
 
+def _opts(o):
+    """(keyless, constructor kwargs) of a reader-creating op: tag 0 = [c, 0, macros, keyless, person_fields],
+    tag 2 = [c, 2, macros, files, entry point, keyless, person_fields]"""
+    kl_i, pf_i = (3, 4) if o[1] == 0 else (5, 6)
+    kw = _macros_kw(o[2])
+    kl = bool(o[kl_i]) if len(o) > kl_i and not isinstance(o[kl_i], list) else False
+    if kl:
+        kw['keyless_entries'] = True
+    if len(o) > pf_i and o[pf_i]:
+        kw['person_fields'] = [S(x) for x in o[pf_i][0]]
+    return kl, kw
+
 class Ctx(list):
     """per-history context: the live readers (list items) and, lazily, a long-lived database"""
     env = None
+    def __init__(self):
+        list.__init__(self)
+        self.kl = []
 
 _REC = {}
 def _rec_parser():
@@ -204,7 +222,7 @@ def _rec_parser():
     return _REC['cls']
 
 def _implicit_ep(o, n):
-    if len(o) > 4:
+    if len(o) > 4 and isinstance(o[4], int) and o[4] >= 0:
         return o[4] % n
     h = len(sx(o))
     return h % n if h % 3 == 0 else 0
@@ -266,16 +284,17 @@ def _exec(readers, o, use_files):
         return tmpd[0]
     try:
         if t == 0:
-            readers.append(bt.Parser(**_macros_kw(o[2])))
+            kl, kw = _opts(o)
+            readers.append(bt.Parser(**kw)); readers.kl.append(kl)
             return [1, len(readers) - 1]
         if t == 1:
             p = readers[o[2]]
-            _feed(p, render(o[3]), _implicit_ep(o, 4), tmp)
+            _feed(p, render(o[3], readers.kl[o[2]]), _implicit_ep(o, 4), tmp)
             return _snap(p)
         if t == 2:
             ep = _implicit_ep(o, 7)
-            kw = _macros_kw(o[2])
-            texts = [render(f) for f in o[3]]
+            kl, kw = _opts(o)
+            texts = [render(f, kl) for f in o[3]]
             if ep >= 4 and texts:
                 # the first file through the module-level function (which builds the reader), the rest into that reader
                 Rec = _rec_parser()
@@ -368,6 +387,10 @@ def _final():
             bool(E.strict), E.error_code, E.captured_errors is None]
 
 def impl_history(arg):
+    with _Watchdog(20):
+        return _impl_history(arg)
+
+def _impl_history(arg):
     import pybtex.errors as E
     arg = fix_arg(2, arg)
     cap, ops = arg[0], arg[1]
@@ -511,7 +534,7 @@ def oracle_all(fn, arg, out):
     seen = {}
     for i, (o, r) in enumerate(zip(ops, outs)):
         if _self_contained(o):
-            key = (sx(o[:4] if o[1] == 2 else o), strict)     # the entry point used is not part of the computation
+            key = (sx(o[:4] + o[5:] if o[1] == 2 else o), strict)     # the entry point used is not part of the computation
             # F19: the deviating call is a _format_name / format.name$ call on a name that reports
             # 'Too many commas'.  Whether the report happens depends on whether the call is served from
             # the cache: same value with fewer/more reports (capture, non-strict), or -- in strict mode,
@@ -599,12 +622,15 @@ def describe(fn, arg):
     names = ['Parser(macros)', 'readers[r].parse_string', 'Parser(macros).parse_files', 'list(LowLevelParser(text[, macros=readers[r].macros]))',
              '_format_name(names, n, format)', 'Interpreter + format.name$ calls', 'errors.set_strict_mode', 'opaque call']
     ops = []
+    kls = []
     for o in arg[1]:
         d = {'call': names[min(o[1], 7)], 'inside_capture': bool(o[0])}
+        if o[1] == 0: kls.append(_opts(o)[0])
         t = o[1]
+        if t in (0, 2): d['options'] = {k: v for k, v in _opts(o)[1].items() if k != 'macros'}
         if t == 0: d['macros'] = [(S(k), S(v)) for k, v in o[2][0]] if o[2] else 'default'
-        elif t == 1: d['reader'] = o[2]; d['text'] = render(o[3]); d['entry_point'] = ENTRY_POINTS[_implicit_ep(o, 4)]
-        elif t == 2: d['macros'] = [(S(k), S(v)) for k, v in o[2][0]] if o[2] else 'default'; d['files'] = [render(f) for f in o[3]]; d['entry_point'] = ENTRY_POINTS[_implicit_ep(o, 7)]
+        elif t == 1: d['reader'] = o[2]; d['text'] = render(o[3], o[2] < len(kls) and kls[o[2]]); d['entry_point'] = ENTRY_POINTS[_implicit_ep(o, 4)]
+        elif t == 2: d['macros'] = [(S(k), S(v)) for k, v in o[2][0]] if o[2] else 'default'; d['files'] = [render(f, _opts(o)[0]) for f in o[3]]; d['entry_point'] = ENTRY_POINTS[_implicit_ep(o, 7)]
         elif t == 3: d['macros_of_reader'] = o[2][0] if o[2] else 'default (month_names)'; d['text'] = render(o[3])
         elif t == 4: d['args'] = [S(o[2]), o[3], S(o[4])]
         elif t == 5: d['calls'] = [[S(k[0]), k[1], S(k[2])] for k in o[2]]
@@ -627,9 +653,10 @@ def ENT(typ, key, *fields): return [2, typ, key, [[n, list(v)] for n, v in field
 def STR(name, *v): return [0, name, list(v)]
 def PRE(*v): return [1, list(v)]
 COMMENT, BAD = [3], [4]
-def NEWR(macros=None, c=0): return [c, 0, [] if macros is None else [macros]]
+def NEWR(macros=None, c=0, keyless=0, pf=None): return [c, 0, [] if macros is None else [macros], keyless, [] if pf is None else [pf]]
 def FEED(r, file, c=0, ep=None): return [c, 1, r, file] + ([] if ep is None else [ep])
-def PARSE(files, macros=None, c=0, ep=None): return [c, 2, [] if macros is None else [macros], files] + ([] if ep is None else [ep])
+def PARSE(files, macros=None, c=0, ep=None, keyless=0, pf=None):
+    return [c, 2, [] if macros is None else [macros], files, -1 if ep is None else ep, keyless, [] if pf is None else [pf]]
 def OPAQUE(k, c=0): return [c, 7, k]
 def LOWL(file, r=None, c=0): return [c, 3, [] if r is None else [r], file]
 def FNAME(names, n, fmt, c=0): return [c, 4, names, n, fmt]
@@ -639,7 +666,7 @@ def STRICT(b): return [0, 6, 1 if b else 0]
 def menu():
     m = []
     # probe A: own macro and a month, well formed
-    m.append(PARSE([[STR('m', L_('V')), ENT('Article', 'k', ('title', [M_('m'), L_(' t')]), ('month', [M_('jan')]))]]))
+    m.append(PARSE([[STR('m', L_('V')), PRE(L_('pre'), M_('m')), ENT('Article', 'k', ('title', [M_('m'), L_(' t')]), ('month', [M_('jan')]))]]))
     # uses a macro it never defined: fails (strict) unless some other reader's @string leaked
     m.append(PARSE([[ENT('misc', 'k', ('note', [M_('m')]), ('year', [M_('foo')]))]]))
     # two files of one reader: the second sees the first's macros; a month redefined inside the reader
@@ -654,8 +681,19 @@ def menu():
     m.append(FNAME('A B', 2, '{ll}'))
     m.append(BST([('N1 L1', 1, '{ll}'), ('N2 L2', 1, '{ll}'), ('N3 L3 and a, b, c, d', 2, '{ll}')]))
     m.append(OPAQUE(0)); m.append(OPAQUE(7))
+    # keyless readers: entries are named unnamed-1, unnamed-2 from a per-reader counter that restarts at every parse
+    m.append(PARSE([KFILE], keyless=1))
+    m.append(PARSE([KFILE_BAD], keyless=1))                 # fails after its first entry has taken unnamed-1
+    m.append(NEWR(keyless=1, pf=['Translator']))
+    # person_fields is per reader: a custom one, and the default on the same text
+    m.append(PARSE([PFILE], pf=['Translator']))
+    m.append(PARSE([PFILE]))
     m.append(PARSE([[ENT('misc', 'k', ('note', [M_('m')])), BAD, COMMENT, ENT('misc', 'k', ('note', [L_('again')]))]], macros=[['M', 'given'], ['m', 'twice']]))
     return m
+
+KFILE = [ENT('misc', 'x', ('title', [L_('T')])), ENT('book', 'y'), COMMENT, ENT('misc', 'z', ('author', [L_('Ann Lee')]))]
+KFILE_BAD = [ENT('misc', 'x'), ENT('misc', 'y', ('note', [M_('nosuchmacro')])), ENT('misc', 'z')]
+PFILE = [ENT('misc', 'k', ('translator', [L_('Ann Lee and a, b, c, d')]), ('Author', [L_('X Y')]), ('note', [L_('n')]))]
 
 def with_capture(o):
     o = list(o); o[0] = 1
@@ -680,7 +718,7 @@ def rand_file(rng, allow_bad=True):
         elif r < 0.4:
             f.append(PRE(*rand_value(rng, MACS)))
         elif r < 0.85:
-            fields = [(rng.choice(['title', 'Title', 'author', 'Editor', 'month', 'note', 'year']), rand_value(rng, MACS)) for _ in range(rng.randint(0, 3))]
+            fields = [(rng.choice(['title', 'Title', 'author', 'Editor', 'month', 'note', 'year', 'translator']), rand_value(rng, MACS)) for _ in range(rng.randint(0, 3))]
             f.append(ENT(rng.choice(['article', 'Book', 'misc']), rng.choice(['k', 'K', 'k2', 'key3']), *fields))
         elif r < 0.92:
             f.append(COMMENT)
@@ -695,6 +733,9 @@ def rand_nkey(rng, fresh):
         return ('N%d L%d' % (next(fresh), rng.randint(0, 3)), 1, rng.choice(FMTS[:2]))
     return (rng.choice(NAMEPOOL), rng.choice([1, 1, 1, 2, 0, 3]), rng.choice(FMTS))
 
+def rand_pf(rng):
+    return None if rng.random() < 0.8 else rng.choice([['Translator'], ['AUTHOR', 'note'], []])
+
 def rand_history(rng, n):
     ops = []
     nreaders = 0
@@ -704,9 +745,10 @@ def rand_history(rng, n):
         c = 1 if rng.random() < 0.4 else 0
         if r < 0.22:
             ops.append(PARSE([rand_file(rng) for _ in range(rng.choice([1, 1, 2, 3]))],
-                             macros=None if rng.random() < 0.7 else [[rng.choice(MACS), rng.choice(['g', 'h'])] for _ in range(rng.randint(0, 3))], c=c))
+                             macros=None if rng.random() < 0.7 else [[rng.choice(MACS), rng.choice(['g', 'h'])] for _ in range(rng.randint(0, 3))], c=c,
+                             keyless=int(rng.random() < 0.25), pf=rand_pf(rng)))
         elif r < 0.30:
-            ops.append(NEWR(None if rng.random() < 0.6 else [[rng.choice(MACS), 'r']], c=c)); nreaders += 1
+            ops.append(NEWR(None if rng.random() < 0.6 else [[rng.choice(MACS), 'r']], c=c, keyless=int(rng.random() < 0.25), pf=rand_pf(rng))); nreaders += 1
         elif r < 0.45 and nreaders:
             ops.append(FEED(rng.randrange(nreaders), rand_file(rng), c=c))
         elif r < 0.52:
@@ -745,6 +787,7 @@ def gen(tier, rng):
     # ---- fn 2: pinned inputs (every defect input of this property)
     yield ('pinned', 2, PIN_F19)
     yield ('pinned', 2, PIN_F28)
+    yield ('pinned', 2, [0, [PARSE([KFILE], keyless=1), PARSE([KFILE_BAD], keyless=1), PARSE([KFILE], keyless=1)]])   # seeded: class-level unnamed counter
     yield ('pinned', 2, [0, [FNAME('a, b, c, d', 1, '{ll}'), FNAME('a, b, c, d', 1, '{ll}', c=1), STRICT(False), FNAME('a, b, c, d', 1, '{ll}')]])
     yield ('pinned', 2, [2, [LOWL([STR('jan', L_('X')), STR('foo', L_('bar'))]), PARSE([[ENT('a', 'k', ('month', [M_('jan')]), ('note', [M_('foo')]))]], c=1)]])
     # more fresh format.name$ calls than the shipped caches hold, a probe before, between and after
@@ -760,7 +803,7 @@ def gen(tier, rng):
             full.append(with_capture(o))
     full += [STRICT(False), STRICT(True)]
     # a smaller pool for the longest histories: the calls that write some cell, and the probes that read it
-    core_pool = [full[i] for i in range(len(full)) if (not full[i][0] or full[i][1] in (2, 4)) and full[i][1] != 7]
+    core_pool = [o for o in full if not o[0] and o[1] != 7]
     if tier == 'quick':
         plan = [(1, full, 1), (2, full, 1), (3, core_pool, 1)]
     else:
@@ -784,16 +827,31 @@ def gen(tier, rng):
                 yield ('entry_points', 2, [2, [NEWR(), FEED(0, d, ep=ep_d, c=(ep_d + di) % 2)] + probes(ep_p) + [FEED(0, d, ep=ep_d)]])
             yield ('entry_points', 2, [2, [LOWL(d)] + probes(ep_p) + [LOWL(d, c=1)]])
             yield ('entry_points', 2, [2, [NEWR(), LOWL(d, r=0)] + probes(ep_p)])
+    # ---- the same for keyless readers: earlier keyless parses (also failing ones, also several files) through
+    #      every entry point, then an independent keyless probe; and for person_fields
+    for di, d in enumerate([[KFILE], [KFILE_BAD], [KFILE, KFILE]]):
+        for ep_p in range(7):
+            kprobe = [PARSE([KFILE], keyless=1, ep=ep_p), PARSE([KFILE_BAD], keyless=1, ep=ep_p, c=1), PARSE([PFILE], ep=ep_p)]
+            for ep_d in range(7):
+                yield ('two_readers', 2, [2, [PARSE(d, keyless=1, ep=ep_d, c=(ep_d + di) % 2, pf=['translator'])] + kprobe])
+            for ep_d in range(4):
+                yield ('two_readers', 2, [2, [NEWR(keyless=1, pf=['note']), FEED(0, d[0], ep=ep_d, c=di % 2)] + kprobe + [FEED(0, d[0], ep=ep_d, c=1)]])
+    # two live readers interleaved: each one's macros, entries, preamble, counter and options are its own
+    for ep_a in range(4):
+        for ep_b in range(4):
+            yield ('two_readers', 2, [2, [NEWR(keyless=1), NEWR(pf=['Translator']), FEED(0, KFILE, ep=ep_a), FEED(1, [STR('m', L_('B')), PRE(M_('m'))] + PFILE, ep=ep_b),
+                                          FEED(0, KFILE_BAD, ep=ep_a, c=1), FEED(1, [ENT('misc', 'k2', ('note', [M_('m')]))], ep=ep_b), FEED(0, KFILE, ep=ep_b, c=1),
+                                          LOWL([ENT('a', 'k', ('n', [M_('m')]))], r=1), PARSE([PFILE]), PARSE([KFILE], keyless=1)]])
     # ---- fn 2: random histories
-    for i in range(1000 if tier == 'quick' else 6000):
+    for i in range(700 if tier == 'quick' else 6000):
         cap = rng.choice([1, 2, 3, 4, 8, 0])
-        yield ('history_random', 2, [cap, rand_history(rng, rng.choice([3, 6, 10, 20, 40]))])
+        yield ('history_random', 2, [cap, rand_history(rng, rng.choice([3, 6, 10, 16, 24] if tier == 'quick' else [3, 6, 10, 20, 40]))])
 
 RULE = ('fn 1 (memoize): every key sequence up to the length bound over 4 keys (two returning, one raising a pybtex error, one raising a foreign exception) x capacities 0..3, plus random runs up to capacity 1024 with more distinct keys than the capacity; '
-        'fn 2 (API histories): pinned defect inputs, a history with 1100 fresh format.name$ calls at the shipped capacity, every history of length <= 2 over a menu of 15 calls (incl. two opaque writer/engine calls; each also inside errors.capture(), plus set_strict_mode on/off; 31 in all) and of length 3 (thorough: also every seventh one of length 4) over the 22 of them that are not capture() variants of state-writing calls, cache capacity 2 (thorough: length 3 over all 31), a stream where an earlier reader defines/redefines macros through each of the 7 parse entry points (and a live reader, and LowLevelParser) before independent probe parses through each entry point, and random histories up to length 40; every self-contained call is also re-run alone in a reset process state. '
+        'fn 2 (API histories): pinned defect inputs, a history with 1100 fresh format.name$ calls at the shipped capacity, every history of length <= 2 over a menu of 20 calls (keyless and person_fields readers included) (incl. two opaque writer/engine calls; each also inside errors.capture(), plus set_strict_mode on/off; 41 in all) and of length 3 (thorough: also every seventh one of length 4) over the 20 of them that are neither capture() variants nor opaque, cache capacity 2 (thorough: length 3 over all 41), a stream where an earlier reader defines/redefines macros through each of the 7 parse entry points (and a live reader, and LowLevelParser) before independent probe parses through each entry point, and random histories up to length 24 (thorough: 40); every self-contained call is also re-run alone in a reset process state. '
         'distinct = distinct (function, argument); non-trivial = more distinct keys than the capacity (fn 1) / at least two kinds of call (fn 2)')
-EXHAUSTIVE = {'quick': 'memoize: all key sequences of length <= 6 over 4 keys x capacities 0..3; API histories: all sequences of length <= 2 over the 31-call menu, all of length 3 over its 22-call core',
-              'thorough': 'memoize: all key sequences of length <= 7 over 4 keys x capacities 0..3; API histories: all sequences of length <= 3 over the 31-call menu, every seventh one of length 4 over its 22-call core'}
+EXHAUSTIVE = {'quick': 'memoize: all key sequences of length <= 6 over 4 keys x capacities 0..3; API histories: all sequences of length <= 2 over the 41-call menu, all of length 3 over its 20-call core (the calls outside capture())',
+              'thorough': 'memoize: all key sequences of length <= 7 over 4 keys x capacities 0..3; API histories: all sequences of length <= 3 over the 41-call menu, every seventh one of length 4 over its 20-call core (the calls outside capture())'}
 TRUSTED_BASE = ['modelled (not verified) code: pybtex/utils.py memoize; pybtex/errors.py; pybtex/bibtex/builtins.py _split_names/_format_name/format.name$; pybtex/database/input/bibtex.py month_names, LowLevelParser command level, Parser; pybtex/database/input/__init__.py BaseParser; BibliographyData.add_entry',
                 'the lexical level of .bib files is not modelled: the harness renders tokenised commands to text (harness/props/c18.py render)',
                 'format_bibtex_name (C11) enters the model as a table measured from the real function for the pairs each history reaches']
@@ -952,6 +1010,45 @@ def _r_strict(b):
         E.set_strict_mode(b)
         return 'ok'
     return f
+def _r_parser_opts(text, **kw):
+    def f(env):
+        from pybtex.database.input import bibtex as bt
+        p = bt.Parser(**kw)
+        return _dg(_db_snapshot(p.parse_string(text)))
+    return f
+R_BIB_KEYLESS = '@misc{title = {One}}\n@book{author = {Ann Lee}, title = {Two}}\n'
+R_BIB_KEYLESS_BAD = '@misc{title = {One}}\n@misc{note = nosuchmacro}\n'
+R_BIB_ROLES = '@misc{k, translator = {Ann Lee and Bob Ray}, author = {X Y}, note = {n}}\n'
+def _r_lowlevel_interleaved(env):
+    """two LowLevelParser iterators advanced alternately must yield what each yields alone"""
+    from pybtex.database.input import bibtex as bt
+    t1 = '@a{k1, x = {1}, y = "2"}\n@string{s = "S"}\n@b{k2, z = s}\n'
+    t2 = '@preamble{"P"}\n@c{k3, u = {3}}\n@d{k4, v = jan # "4", w = 5}\n'
+    alone = [list(bt.LowLevelParser(t1)), list(bt.LowLevelParser(t2))]
+    its = [iter(bt.LowLevelParser(t1)), iter(bt.LowLevelParser(t2))]
+    got = [[], []]
+    live = [0, 1]
+    while live:
+        for i in list(live):
+            try:
+                got[i].append(next(its[i]))
+            except StopIteration:
+                live.remove(i)
+    return 'consistent' if repr(got) == repr(alone) else 'INTERLEAVED READERS DIFFER: %r' % (got,)
+def _r_readers_interleaved(env):
+    """two Parser objects fed alternately must end up with what each gets alone"""
+    from pybtex.database.input import bibtex as bt
+    a = ['@string{m = "A"}\n@preamble{"pa"}\n@misc{title = m}\n', '@string{n = "N"}\n@preamble{"pa2" # n # m}\n']   # (a second keyless file would restart at unnamed-1 and collide)
+    b = ['@string{m = "B"}\n@preamble{"pb"}\n@misc{k, translator = {T One}, note = m}\n', '@misc{k2, note = m, month = jan}\n']
+    def run(order):
+        pa, pb = bt.Parser(keyless_entries=True, wanted_entries=None), bt.Parser(person_fields=['translator'])
+        for who, i in order:
+            (pa if who == 'a' else pb).parse_string((a if who == 'a' else b)[i])
+        return _db_snapshot(pa.data), _db_snapshot(pb.data), sorted(pa.macros.items()), sorted(pb.macros.items())
+    alone = run([('a', 0), ('a', 1), ('b', 0), ('b', 1)])
+    mixed = run([('a', 0), ('b', 0), ('a', 1), ('b', 1)])
+    return 'consistent' if alone == mixed else 'INTERLEAVED READERS DIFFER'
+
 def _r_lowlevel(env):
     from pybtex.database.input import bibtex as bt
     p = bt.Parser()
@@ -974,9 +1071,19 @@ REAL_CALLS = collections.OrderedDict([
     ('fail_parse_captured', _r_fail_captured), ('fail_style', _r_format_py('nosuchstyle', 'latex')),
     ('fail_bst', _r_format_bst(R_BIB, which='badbst')), ('fail_bst_captured', _r_format_bst(R_BIB, which='badbst', capture=True)), ('fail_yaml', _r_parse('yaml', 'entries: [: : :')),
     ('nonstrict', _r_strict(False)), ('strict', _r_strict(True)), ('lowlevel_with_reader_macros', _r_lowlevel),
+    # per-reader attributes a refactoring could hoist to class / module level: unnamed counter, person_fields,
+    # wanted_entries / citations (a crossref adds to wanted_entries), data / preamble, parser cursors
+    ('parse_keyless', _r_parser_opts(R_BIB_KEYLESS, keyless_entries=True)),
+    ('fail_parse_keyless', _r_parser_opts(R_BIB_KEYLESS_BAD, keyless_entries=True)),
+    ('parse_roles_custom', _r_parser_opts(R_BIB_ROLES, person_fields=['translator'])),
+    ('parse_roles_default', _r_parser_opts(R_BIB_ROLES)),
+    ('parse_wanted_k2', _r_parser_opts(R_BIB, wanted_entries=['K2'])),        # k2 cross-references k1: k1 becomes wanted too
+    ('parse_wanted_k3', _r_parser_opts(R_BIB, wanted_entries=['k3'], min_crossrefs=1)),
+    ('lowlevel_interleaved', _r_lowlevel_interleaved), ('readers_interleaved', _r_readers_interleaved),
 ])
 REAL_PROBES = ['parse_bibtex', 'parse_yaml', 'write_bibtex', 'write_bibtexml', 'format_py_unsrt_latex', 'format_py_db_alpha_html',
-               'format_bst_small', 'format_bst_small_captured', 'format_bst_nomacro', 'name_probe', 'fail_parse_captured']
+               'format_bst_small', 'format_bst_small_captured', 'format_bst_nomacro', 'name_probe', 'fail_parse_captured',
+               'parse_keyless', 'parse_roles_default', 'parse_roles_custom', 'parse_wanted_k2', 'parse_wanted_k3', 'lowlevel_interleaved', 'readers_interleaved']
 
 def _r_call(env, name):
     import pybtex.io
@@ -1026,6 +1133,8 @@ def _run_real(history, probe):
         for name in history:
             _r_call(env, name)
             vals.append(probe_value())
+        if probe.endswith('_interleaved') and vals[0][0] != 'consistent':
+            fails.append('probe %s: %s' % (probe, str(vals[0][0])[:200]))
         for i, v in enumerate(vals[1:]):
             if v != vals[0]:
                 fails.append('probe %s gives %r after call %d (%s), %r at the start' % (probe, v, i, history[i], vals[0]))
@@ -1045,7 +1154,33 @@ def _run_real(history, probe):
         env.close()
         _reset(None)
 
+class _Watchdog(object):
+    """raise TimeoutError in this process after `seconds` (a defect that makes shared state grow without
+    bound must end in a report, not in a check that never returns)"""
+    def __init__(self, seconds):
+        self.seconds = seconds
+    def __enter__(self):
+        import signal
+        def handler(signum, frame):
+            raise TimeoutError('no result within %d s' % self.seconds)
+        self.old = signal.signal(signal.SIGALRM, handler)
+        signal.setitimer(signal.ITIMER_REAL, self.seconds)
+    def __exit__(self, *a):
+        import signal
+        signal.setitimer(signal.ITIMER_REAL, 0)
+        signal.signal(signal.SIGALRM, self.old)
+        return False
+
 def _real_worker(job):
+    try:
+        with _Watchdog(12):
+            return _real_worker_(job)
+    except TimeoutError as e:
+        return (job[0], job[1], ['history followed by probe %s: %s (state growing without bound?)' % (job[1], e)], None)
+    except BaseException as e:
+        return (job[0], job[1], ['harness error %r %s' % (e, traceback.format_exc()[-600:])], None)
+
+def _real_worker_(job):
     try:
         fails, v0 = _run_real(job[0], job[1])
         if fails:      # shrink: drop calls while it still fails
@@ -1097,8 +1232,19 @@ def extra_checks(ck, tier, rng):
             h.remove('fresh_names_1100')
         jobs.append((h, rng.choice(REAL_PROBES)))
     ctx = mp.get_context('fork')
-    with ctx.Pool(min(NPROC, 16)) as pool:
-        res = pool.map(_real_worker, jobs, chunksize=4)
+    res = []
+    pool = ctx.Pool(min(NPROC, 16))
+    deadline = time.time() + (150 if tier == 'quick' else 900)
+    try:
+        it = pool.imap_unordered(_real_worker, jobs)
+        for _ in range(len(jobs)):
+            try:
+                res.append(it.next(timeout=max(1.0, deadline - time.time())))
+            except mp.TimeoutError:
+                res.append(([], 'all', ['%d of %d end-to-end histories did not finish within the time budget' % (len(jobs) - len(res), len(jobs))], None))
+                break
+    finally:
+        pool.terminate(); pool.join()
     fails = []
     base = {}
     for h, p, fl, v0 in res:
